@@ -610,7 +610,15 @@ fn task_main(ix: usize, sh: Arc<Shared>, cmd_rx: Receiver<Cmd>, rep_tx: Sender<(
             Cmd::StartTake(id) => {
                 let o = sh.held[ix].lock().unwrap().remove(&id);
                 c.cur_op.set("take");
-                sh.truth.lock().unwrap().info(id).handed_over = true;
+                {
+                    let mut t = sh.truth.lock().unwrap();
+                    let gone = !t.pool_alive;
+                    let o = t.info(id);
+                    o.handed_over = true;
+                    if gone {
+                        o.orphan = true;
+                    }
+                }
                 let r = catch_unwind(AssertUnwindSafe(move || {
                     if let Some(o) = o {
                         let inner = Object::take(o);
@@ -764,6 +772,10 @@ pub struct World {
     pub last: Vec<Option<OpResult>>,
     threads: Vec<Option<std::thread::JoinHandle<()>>>,
     pub hung: bool,
+    /// facts captured right before the last command was sent
+    pub pre_woken: bool,
+    pub pre_closed: bool,
+    pub pre_idle: Vec<u32>,
 }
 
 #[derive(Clone, Debug, Default, PartialEq, Eq, Serialize)]
@@ -821,7 +833,7 @@ impl World {
                     .unwrap(),
             ));
         }
-        World { cfg, sh, cmd_tx, rep_rx, ts: vec![TState::Idle; n], last: vec![None; n], threads, hung: false }
+        World { cfg, sh, cmd_tx, rep_rx, ts: vec![TState::Idle; n], last: vec![None; n], threads, hung: false, pre_woken: false, pre_closed: false, pre_idle: vec![] }
     }
 
     pub fn task_ix(&self, name: &str) -> Option<usize> {
@@ -832,6 +844,15 @@ impl World {
     pub fn send(&mut self, t: usize, cmd: Cmd) -> TState {
         if self.hung {
             return TState::Hung;
+        }
+        self.pre_woken = self.woken(t);
+        if let Some(p) = self.pool() {
+            self.pre_closed = p.is_closed();
+            if self.ts[t] == TState::AtPoint("m.retain.lock") {
+                let mut ids = vec![];
+                p.verif_idle(|o, _| ids.push(o.id));
+                self.pre_idle = ids;
+            }
         }
         if self.cmd_tx[t].send(cmd).is_err() {
             self.hung = true;
